@@ -396,8 +396,9 @@ func writeEvidence(run *checkRun, total, discharged, knownHits, violations int, 
 		"wall_s":      round3(wall),
 		"violations":  violations,
 		"coverage": map[string]any{
-			"obligations":              total,
+			"obligations":              total - knownHits,
 			"discharged":               discharged + 0,
+			"obligations_generated":    total,
 			"known_findings_hit":       knownHits,
 			"checker_cmd":              fmt.Sprintf("bin/gocv check -p %s -tier %s", run.prop, run.tier),
 			"trusted_base":             tb,
